@@ -121,7 +121,7 @@ def run(ctx):
             pen = pens[(k + seed) % 3]
             nwords = len(Cfg(*g, kind, policy).words)
             cachebfs.explore(ctx, Cfg(*g, kind, policy, pen, "full", k % 2 == 0, "base"), WANT, 3 if nwords <= 4 else 2)
-            cachebfs.explore(ctx, Cfg(*g, kind, policy, pens[(k + 1) % 3], "word", k % 2 == 1, ("base", "top", "neg")[k % 3]), WANT,
+            cachebfs.explore(ctx, Cfg(*g, kind, policy, pens[(k + 1) % 3], "word", k % 2 == 1, ("mixed", "base", "top", "neg")[k % 4]), WANT,
                              6 if nwords <= 4 else (5 if nwords <= 6 else 3))
             k += 1
         closure = [((0, 0, 1), "lru"), ((0, 0, 2), "lru"), ((0, 0, 2), "plru"), ((0, 0, 3), "lru"), ((1, 0, 2), "lru"), ((0, 0, 4), "plru"), ((1, 0, 1), "lru")]
@@ -130,7 +130,7 @@ def run(ctx):
             pen = pens[k % 3]
             nwords = len(Cfg(*g, kind, policy).words)
             cachebfs.explore(ctx, Cfg(*g, kind, policy, pen, "full", k % 2 == 0, "base"), WANT, 3 if nwords <= 6 else 2, state_cap=800000)
-            cachebfs.explore(ctx, Cfg(*g, kind, policy, pens[(k + 1) % 3], "word", k % 2 == 1, ("base", "top", "neg", "big")[k % 4]), WANT,
+            cachebfs.explore(ctx, Cfg(*g, kind, policy, pens[(k + 1) % 3], "word", k % 2 == 1, ("mixed", "base", "top", "neg", "big")[k % 5]), WANT,
                              7 if nwords <= 4 else (5 if nwords <= 6 else 4), state_cap=800000)
             k += 1
         closure = [((0, 0, 1), "lru"), ((0, 0, 2), "lru"), ((0, 0, 2), "plru"), ((0, 0, 3), "lru"), ((1, 0, 2), "lru"), ((1, 0, 2), "plru"),
